@@ -41,8 +41,11 @@ class Subject:
         from hexital import Hexital
 
         self.route = route
-        if route == "indicator":
+        self.fill = route == "indicator+fill"
+        if route in ("indicator", "indicator+fill"):
             kw = {"timeframe": tf} if tf else {}
+            if self.fill:
+                kw["timeframe_fill"] = True
             self.ind = make(candles=candles, candlestick_type="HA", **kw)
             self.ind.calculate()
             self.top = self.ind
@@ -79,6 +82,8 @@ def check(subject, make, raw_rows, tf, name_for_twin):
     """-> None or (symptom, detail, index, function-hint)"""
     cands = subject.candles()
     base = R.resample(raw_rows, R.tf_seconds(tf)) if tf else R.rows(raw_rows)
+    if getattr(subject, "fill", False) and tf:
+        base = R.fill(base, R.tf_seconds(tf))  # gaps are filled from the RAW closes, conversion comes after
     want = R.heikin_ashi(base)
     got = R.rows(cands)
     if len(got) != len(want):
@@ -140,9 +145,9 @@ def run(tier, seed, focus=None):
     members = _members()
     n_streams = 8 if thorough else 2
     for mname, make in members:
-        for route in ("indicator", "hexital", "hexital-derived"):
+        for route in ("indicator", "hexital", "hexital-derived", "indicator+fill"):
             for tf in tfs:
-                if route == "hexital-derived" and tf is None:
+                if route in ("hexital-derived", "indicator+fill") and tf is None:
                     continue
                 for kind in kinds:
                     for si in range(n_streams):
